@@ -21,9 +21,14 @@ RULE = ("corpus of recon inputs and past failures first (corpus/C19/cases.json),
         "of rank 1-3 with independent extents; type min/max and 0.1/1e-5/1e300-like values; strings from a word list, from an alphabet "
         "with quotes, $, backslash, blanks, from a pool of hostile fragments such as a\\\"b, $HOME, `ls`, \\x41, trailing "
         "backslash, and from a pool of non-ASCII fragments (Latin-1, Greek, CJK, symbols, characters beyond the BMP)) parsed by "
-        "the real DIP; each environment is exported through all 9 back-ends with random options (rename, guard, "
-        "define/const lists up to all scalars, module, export, units) and query/tag selections; non-trivial = selection contains an "
-        "array or >= 3 parameters; distinct = canonical JSON of (source, back-end, options, selection)")
+        "the real DIP; strings and (part of the) names also come from a pool of the back-ends' own keywords and emitted tokens "
+        "(const, constexpr, #define, pub const, parameter, character(len=3), declare -A, export, true/false, type names ...; "
+        "names such as const_g, export_dir, true_val, with renaming on and off); each environment is exported through all 9 back-ends with random options (rename, guard, "
+        "define/const lists up to all scalars, module, export, units) and query/tag selections; in addition ONE exporter object per (environment, back-end) lives through a history "
+        "parse, parse(other options), select, parse(same options), parse(other options), re-select, parse, parse(other options) "
+        "and every parse is compared with the export of a fresh object for the selection and options then in force; "
+        "non-trivial = selection contains an "
+        "array or >= 3 parameters, or a history; distinct = canonical JSON of (source, back-end, options, selection)")
 ASSUMPTIONS = [
     "the installed gcc, g++, gfortran (-ffree-line-length-none), rustc, bash (non-interactive: no history expansion of '!') are the "
     "ground truth for what exported text means; json (stdlib), yaml.safe_load, tomllib and the DIP parser are trusted readers",
@@ -39,6 +44,11 @@ ASSUMPTIONS = [
     "that are not identifiers after the documented mapping (compiled back-ends) and tag selections with more than one selector are "
     "outside the domain",
     "a preprocessor definition has no declared type: only its value is compared (booleans as 1/0)",
+    "histories on one exporter object: the reference for every parse is a fresh object with the same constructor options, the "
+    "current selection and the same parse options (whose meaning the other streams check); in the C back-end an "
+    "#include <stdbool.h> kept from an earlier export of the same object is not a difference (it defines no symbol)",
+    "names that are keywords of a target language on their own are outside the domain (not identifiers there); names and "
+    "strings merely containing keywords are inside",
     "rust float128 -> f64 is the documented exception; JSON/YAML/TOML carry no declared widths",
     "the Lean whole-file theorems (C, C++, Rust) assume a (renamed) name without '[' / blank (C, C++) or ':' (Rust), names, guard "
     "and strings without newline, rectangular values without empty levels, `define` only for scalars whose float text is not an "
@@ -52,7 +62,8 @@ EXPLANATION = ("theorems: decimal print/read identity for all integers; every st
                "one-dimensional arrays read back as the expected variables; Fortran reshape with order=[k..1] undoes the row-major element list for every rectangular "
                "value of any rank (and the default order does not); type tables (regenerated from _parse_dtype and measured with the "
                "compilers) give same class/width/signedness except the listed lacking types; selection characterisation; rename "
-               "non-injectivity; shaping")
+               "non-injectivity; shaping; the exporter object as a model: every parse of any select/parse history returns the export of the "
+               "selection then in force with the options of that call")
 
 _TMP = None
 
@@ -507,7 +518,25 @@ NONASCII = ['¬µm', '√Ö', 'J√∂rg', '¬∞C', '√©', 'Œ©', 'Œª', '‚àö2', '‰∏≠Êñá', '‚Ç
             'üí°x', 'g/cm¬≥', '√Öngstr√∂m', 'œÄ', '‚Üí', 'ùîò', '√ø', 'ƒÄ', '\uffee', '\U0001f9ea', 'Œît']
 
 
+# the back-ends' own keywords and emitted tokens, as values (an exporter that post-processes its text must not touch them)
+KEYWORDS = ['const', 'constexpr', 'constant', 'reconstruct', 'const_dt', '#define X 1', 'define', 'pub const', 'pub', 'static',
+            'parameter', 'character(len=3)', 'declare -A x', 'declare', 'export', 'export X=1', 'true', 'false', '.true.', 'int',
+            'double', 'unsigned int', 'char*', 'bool', 'integer', 'real(kind=8)', 'dimension (2)', 'reshape(', 'order=[2,1]',
+            'module', 'end module', '&str', 'i32', 'f64', '#include <stdbool.h>', '#endif', '#ifndef CONFIG_H', 'implicit none',
+            ':: ', ' = ', ';', 'str', 'float', 'null', '~', 'yes', 'value', 'unit', 'long long int', 'kind=2', '[i32; 2]', '{', '}',
+            'CONFIG_H', 'ConfigurationModule', 'u8', 'short']
+# ... and as parts of names (never a keyword on their own: such a name is not an identifier of the target language)
+KEYWORD_NAMES = ['const_g', 'constant', 'constexpr_k', 'export_dir', 'declare_x', 'pub_key', 'static_v', 'parameter1', 'define_me',
+                 'true_val', 'false_f', 'int_n', 'double_x', 'char_c', 'bool_b', 'real_x', 'integer_i', 'kind2', 'end_t', 'module_m',
+                 'str_s', 'float_f', 'unsigned_u', 'dimension_d', 'reshape_v', 'order_by', 'character_set', 'i32_v', 'unit_u',
+                 'value_v', 'reconst', 'myconst']
+
+
 def gen_string(rng, special):
+    if rng.random() < 0.25:
+        s = "".join(rng.choice(KEYWORDS + ([" "] if not special else HOSTILE[:12] + NONASCII[:6]))
+                    for _ in range(rng.randint(1, 3))).strip()
+        return s or "const"
     if rng.random() < (0.3 if special else 0.15):
         s = "".join(rng.choice(NONASCII + WORDS[:4] + ([" "] if not special else HOSTILE[:12]))
                     for _ in range(rng.randint(1, 3))).strip()
@@ -590,8 +619,11 @@ def gen_specs(rng, dip_types, n, special=False, arrays=True):
         # the kind class first (so that bool and str are as frequent as the many numeric widths), then the width
         kind, bits = rng.choice(by_kind[rng.choice(sorted(by_kind))])
         while True:
-            name = rng.choice(groups) + rng.choice(["a", "b", "cc", "width", "n1", "val", "name", "k9", "flag"]) + \
-                rng.choice(["", "", "x", "2"])
+            if rng.random() < 0.25:
+                name = rng.choice(["", "", "", "box.", "sim."]) + rng.choice(KEYWORD_NAMES)
+            else:
+                name = rng.choice(groups) + rng.choice(["a", "b", "cc", "width", "n1", "val", "name", "k9", "flag"]) + \
+                    rng.choice(["", "", "x", "2"])
             key = name.upper().replace(".", "_")
             if key not in used and not any(u.startswith(name + ".") or name.startswith(u + ".") for u in
                                            [s[0] for s in specs]):
@@ -1677,10 +1709,16 @@ def judge_dip_case(ctx, c, m, sel, text):
     for p in sel:
         if isinstance(p.value, list):
             q = back.get(p.name) if back else None
-            if q is None or q.value != p.value:
+            if q is None or not deep_equal(q.value, p.value):
                 ctx.violation(classify("dip", p, "value", "err"),
                               "DIP export of array %s = %r re-reads as %r" % (p.name, p.value, q.value if q else None),
                               c.replay(param=p.brief()))
+            elif (q.kind, q.bits, q.unit) != (p.kind, p.bits, p.unit):
+                what = "unit" if q.unit != p.unit else "type"
+                ctx.violation("dip:array:%s" % what,
+                              "DIP export of array %s %s%s = %r %s re-reads as %s%s with unit %s (the %s differs)" %
+                              (p.name, p.kind, p.bits or "", p.value, p.unit, q.kind, q.bits or "", q.unit, what),
+                              c.replay(param=p.brief(), reread=q.brief()))
             continue
         q = back.get(p.name) if back else None
         if q is None or (q.kind, q.bits, q.unit) != (p.kind, p.bits, p.unit) or not deep_equal(q.value, p.value):
@@ -1689,6 +1727,113 @@ def judge_dip_case(ctx, c, m, sel, text):
                           "DIP export of %s %s%s = %r %s re-reads as %s" %
                           (p.name, p.kind, p.bits or "", p.value, p.unit, q.brief() if q else None),
                           c.replay(param=p.brief(), reread=q.brief() if q else None))
+
+
+# =============================================================== histories on ONE exporter object
+def export_cls(backend):
+    from scinumtools.dip import config as cfg
+    return {"c": cfg.ExportConfigC, "cpp": cfg.ExportConfigCPP, "fortran": cfg.ExportConfigFortran,
+            "rust": cfg.ExportConfigRust, "bash": cfg.ExportConfigBash, "json": cfg.ExportConfigJSON,
+            "yaml": cfg.ExportConfigYAML, "toml": cfg.ExportConfigTOML, "dip": cfg.ExportConfig}[backend]
+
+
+PARSE_KEYS = ("guard", "define", "const", "module", "export", "units")
+
+
+def parse_kwargs(opts):
+    return {k: opts[k] for k in PARSE_KEYS if k in opts}
+
+
+def other_options(rng, backend, opts, sel):
+    """options that differ from `opts` in what the back-end's parse() takes"""
+    o = dict(gen_options(rng, backend, sel))
+    o["rename"] = opts.get("rename", True)                    # renaming belongs to the object, not to parse()
+    if backend in DATA:
+        o["units"] = not opts.get("units", True)
+    if backend == "bash":
+        o["export"] = not opts.get("export", True)
+    if backend in ("c", "cpp"):
+        o["guard"] = "OTHER_GUARD_H" if opts.get("guard") != "OTHER_GUARD_H" else "CONFIG_H"
+    if backend == "fortran":
+        o["module"] = "other_mod" if opts.get("module") != "other_mod" else "ConfigurationModule"
+    return o
+
+
+def gen_history(rng, ps, backend):
+    """parse, parse with other options, select, parse with the same and with other options, re-select, parse"""
+    o1 = gen_options(rng, backend, ps)
+    o1.setdefault("rename", True)
+    steps = [["parse", o1], ["parse", other_options(rng, backend, o1, ps)]]
+    cur = ps
+    for k in range(2):
+        while True:
+            q, t = gen_selection(rng, ps)
+            if k == 1 and rng.random() < 0.3:
+                q, t = None, None                          # back to everything
+            if (q, t) != (None, None) or k == 1:
+                break
+        steps.append(["select", q, t])
+        cur = spec_select(ps, q, t)
+        same = dict(steps[-2][1]) if steps[-2][0] == "parse" else dict(o1)
+        steps.append(["parse", same])                      # the same options as before the selection
+        steps.append(["parse", other_options(rng, backend, same, cur)])
+    return steps
+
+
+def c_without_include(text):
+    return text.replace("#include <stdbool.h>\n\n", "", 1) if isinstance(text, str) else text
+
+
+def run_history(ctx, src, env, ps, backend, steps):
+    """One exporter object lives through `steps`; every parse must give what a fresh exporter gives for the
+    current selection and the current options (whose meaning the other streams check)."""
+    cls = export_cls(backend)
+    rename = next((s[1].get("rename", True) for s in steps if s[0] == "parse"), True)
+    kw = {"rename": rename} if backend in ("c", "cpp", "fortran", "rust", "bash") else {}
+    try:
+        obj = cls(env, **kw)
+    except Exception:
+        return
+    cur = (None, None)
+    selected_once = False
+    prev_fresh = None
+    for i, st in enumerate(steps):
+        if st[0] == "select":
+            cur = (st[1], st[2])
+            selected_once = True
+            try:
+                obj.select(query=cur[0], tags=cur[1])
+            except Exception:
+                return                                      # the selection itself is refused: nothing to compare
+            continue
+        pk = parse_kwargs(st[1])
+        try:
+            got = obj.parse(**pk)
+        except Exception as ex:
+            got = ("raised", type(ex).__name__)
+        try:
+            f = cls(env, **kw)
+            if selected_once:
+                f.select(query=cur[0], tags=cur[1])
+            want = f.parse(**pk)
+        except Exception as ex:
+            want = ("raised", type(ex).__name__)
+        ctx.count("history-parse." + backend)
+        ok = got == want
+        if not ok and backend == "c" and isinstance(got, str) and isinstance(want, str):
+            # an include line kept from an earlier export defines nothing: only the declarations are compared
+            ok = c_without_include(got) == c_without_include(want) and ("#include" not in want or "#include" in got)
+        if not ok:
+            sel_names = [p.name for p in spec_select(ps, *cur)]
+            stale = prev_fresh is not None and got == prev_fresh
+            sig = "history:%s:%s" % (backend, "stale-selection" if stale else "state")
+            ctx.violation(sig, "%s exporter object, step %d of %s: parse(%s) with selection query=%r tags=%r (documented "
+                          "selection %s) writes %r, a fresh exporter writes %r" %
+                          (backend, i, [x[0] for x in steps], pk, cur[0], cur[1], sel_names, got if not isinstance(got, str) else got[:300],
+                           want if not isinstance(want, str) else want[:300]),
+                          {"source": src, "backend": backend, "steps": steps, "failing_step": i})
+            return
+        prev_fresh = want
 
 
 def correspond(ctx: Ctx):
@@ -1719,6 +1864,21 @@ def correspond(ctx: Ctx):
                 cases.append(Case(src, env, ps, b, gen_options(rng, b, sel), q, t))
     for i in range(0, len(cases), 400):
         run_cases(ctx, cases[i:i + 400])
+    # histories: one exporter object per (environment, back-end) used repeatedly
+    ascii_reports(ctx)
+    hist_envs = envs if not thorough else envs[:200]
+    corpus_envs = []
+    seen_src = set()
+    for c in cases:
+        if c.origin.startswith("corpus:") and c.src not in seen_src:
+            seen_src.add(c.src)
+            corpus_envs.append((c.src, c.env, c.ps))
+    for src, env, ps in corpus_envs + hist_envs:
+        for b in BACKENDS:
+            steps = gen_history(rng, ps, b)
+            ctx.count("history." + b)
+            ctx.case([src, b, "history", steps], True, None)
+            run_history(ctx, src, env, ps, b, steps)
     ctx.extra["compilers"] = "gcc, g++, gfortran -ffree-line-length-none, rustc --edition 2021, bash"
 
 
@@ -1733,6 +1893,14 @@ def replay(ctx, payload):
     if pe is None:
         print("replay: the DIP source is rejected by the parser")
         return 2
+    if "steps" in r:
+        ascii_reports(ctx)
+        run_history(ctx, r["source"], pe[0], pe[1], r["backend"], r["steps"])
+        for v in ctx.violations:
+            print("VIOLATION [%s] %s" % (v["signature"], v["what"]))
+        if not ctx.violations:
+            print("replay: every parse of the history equals the export of a fresh object")
+        return 1 if ctx.violations else 0
     with core.lean_lock():
         ok, out, _ = core.lake_build(["drv_c19"])
     if not ok:
